@@ -79,8 +79,26 @@ def _worker(args):
     limit = int(cfg.get("timeout", os.environ.get("VERIF_CFG_TIMEOUT", "600")))
     signal.signal(signal.SIGALRM, _alarm)
     signal.alarm(limit)
+    # a worker blocked inside a z3 C call never gets back to the interpreter, so the SIGALRM handler cannot run: a watchdog thread interrupts the
+    # solver context a few seconds after the limit (and keeps doing so) until the configuration has returned
+    import threading
+    done = threading.Event()
+
+    def _watchdog():
+        if done.wait(limit + 5):
+            return
+        import z3
+        while not done.wait(2):
+            try:
+                z3.main_ctx().interrupt()
+            except Exception:
+                pass
+    threading.Thread(target=_watchdog, daemon=True).start()
     try:
-        out = mod.run_config(cfg)
+        try:
+            out = mod.run_config(cfg)
+        finally:
+            done.set()
         signal.alarm(0)
         d = out.as_dict() if isinstance(out, Result) else out
         d["wall_s"] = round(time.time() - t0, 3)
